@@ -102,6 +102,7 @@ fn main() {
     let mut xcase: Option<u64> = None;
     let mut xsummary: Option<String> = None;
     let mut extra_json: Option<String> = None;
+    let mut digests_out: Option<String> = None;
     let mut i = 0;
     while i < args.len() {
         let a = args[i].as_str();
@@ -142,6 +143,7 @@ fn main() {
             "--xcase" => xcase = val().parse().ok(),
             "--xsummary" => xsummary = Some(val()),
             "--extra-json" => extra_json = Some(val()),
+            "--digests" => digests_out = Some(val()),
             _ => {
                 eprintln!("unknown argument {a}");
                 std::process::exit(2)
@@ -169,6 +171,7 @@ fn main() {
         survey,
         xsummary,
         extra_json,
+        digests_out,
     };
     if xexport.is_some() || ximport.is_some() {
         let range = match xcase {
